@@ -35,12 +35,20 @@ CmpRows ==
   {Row("intcmp", t, p, s, "", "", CmpPred(t, 2 * p, 2 * s)) : t \in {"gt", "gte", "lt", "lte", "eq"}, p \in {-1, 0, 2}, s \in -3..4}
   \cup {Row("floatcmp", t, 2 * p, s2, "", "", CmpPred(t, 2 * p, s2)) : t \in {"gt", "gte", "lt", "lte", "eq"}, p \in {-1, 0, 2}, s2 \in -5..7}
 
+\* NaN compares false with everything, itself included, whether it is the subject or the parameter
+NanRows == {Row("floatnan", t, 0, 0, p, s, IF p = "nan" \/ s = "nan" THEN FALSE ELSE t \in {"gte", "lte", "eq"}) :
+              t \in {"gt", "gte", "lt", "lte", "eq"}, p \in {"nan", "one"}, s \in {"nan", "one"}} 
+
 \* ---- 3. membership by deep equality ----------------------------------------------------------------------
 Subsets123 == {<<>>, <<1>>, <<2, 3>>, <<1, 2, 3>>, <<3, 3>>}
 InSeq(x, q) == \E i \in DOMAIN q : q[i] = x
 OneOfRows ==
   {Row(f, "oneof", x, 0, "", ToJson(q), InSeq(x, q)) : f \in {"stroneof", "intoneof"}, q \in Subsets123 \ {<<>>}, x \in 1..4}
   \cup {Row("slicecontains", "contains", x, 0, "", ToJson(q), InSeq(x, q)) : q \in Subsets123, x \in 1..4}
+
+\* ... deep: equal values behind DIFFERENT pointers are members (pointer elements, struct elements with a pointer field,
+\* equal times whose zone objects were allocated separately)
+DeepRows == {Row("deepcontains", "contains", 0, 0, k, s, s = "equal") : k \in {"ptr-int", "struct-ptr-field", "time-offset"}, s \in {"equal", "different"}}
 
 \* ---- 4. HasPrefix / HasSuffix / Contains are the strings functions (alphabet {a, b}) ------------------------
 AB == {"a", "b"}
@@ -75,9 +83,12 @@ BoolRows == {Row("bool", t, 0, s, "", "", IF t = "true" THEN s = 1 ELSE s = 0) :
 
 \* ---- 8. grammars: Email, UUID, URL by token classes --------------------------------------------------------------
 \* email = local "@" domain ; domain = label ("." label)* ; a label is 1..63 letters/digits/hyphens, no hyphen at either end
-Locals  == {[t |-> "a", ok |-> TRUE], [t |-> "a.b+c", ok |-> TRUE], [t |-> "", ok |-> FALSE], [t |-> "a b", ok |-> FALSE], [t |-> "a@b", ok |-> FALSE]}
+Locals  == {[t |-> "a", ok |-> TRUE], [t |-> "a.b+c", ok |-> TRUE], [t |-> "", ok |-> FALSE], [t |-> "a b", ok |-> FALSE], [t |-> "a@b", ok |-> FALSE],
+            \* letters are ASCII letters: code points that merely case-fold to one (U+017F long s, U+212A Kelvin sign) are not
+            [t |-> "LONGSam", ok |-> FALSE], [t |-> "KELVINate", ok |-> FALSE]}
 Domains == {[t |-> "b.c", ok |-> TRUE], [t |-> "b", ok |-> TRUE], [t |-> "b-c.d", ok |-> TRUE], [t |-> "-b.c", ok |-> FALSE], [t |-> "b-.c", ok |-> FALSE],
-            [t |-> "b..c", ok |-> FALSE], [t |-> "", ok |-> FALSE], [t |-> "L63.c", ok |-> TRUE], [t |-> "L64.c", ok |-> FALSE], [t |-> "b.c.", ok |-> FALSE], [t |-> "b_c.d", ok |-> FALSE]}
+            [t |-> "b..c", ok |-> FALSE], [t |-> "", ok |-> FALSE], [t |-> "L63.c", ok |-> TRUE], [t |-> "L64.c", ok |-> FALSE], [t |-> "b.c.", ok |-> FALSE], [t |-> "b_c.d", ok |-> FALSE],
+            [t |-> "b.KELVINitchen", ok |-> FALSE], [t |-> "LONGSite.c", ok |-> FALSE]}
 EmailRows == {Row("email", "email", 0, 0, "", l.t \o "@" \o d.t, l.ok /\ d.ok) : l \in Locals, d \in Domains}
              \cup {Row("email", "email", 0, 0, "", "ab.c", FALSE), Row("email", "email", 0, 0, "", "a@b.c\n", FALSE), Row("email", "email", 0, 0, "", " a@b.c", FALSE)}
 \* uuid = 8-4-4-4-12 hexadecimal digits
@@ -94,7 +105,7 @@ URLRows == {Row("url", "url", 0, 0, "", v.t, v.ok) : v \in {
 MatchRows == {Row("match", "^a+$", 0, 0, "^a+$", Join(w), w # <<>> /\ \A i \in DOMAIN w : w[i] = "a") : w \in Words(3)}
              \cup {Row("match", "ab", 0, 0, "ab", Join(w), IsSub(<<"a", "b">>, w)) : w \in Words(3)}
 
-Rows == LenRows \cup CmpRows \cup OneOfRows \cup AffixRows \cup ClassRows \cup TimeRows \cup BoolRows \cup EmailRows \cup UUIDRows \cup URLRows \cup MatchRows
+Rows == LenRows \cup CmpRows \cup NanRows \cup DeepRows \cup OneOfRows \cup AffixRows \cup ClassRows \cup TimeRows \cup BoolRows \cup EmailRows \cup UUIDRows \cup URLRows \cup MatchRows
 
 \* every triple has exactly one expected verdict
 TableOK == \A a, b \in Rows : ([a EXCEPT !.expect = TRUE] = [b EXCEPT !.expect = TRUE]) => a.expect = b.expect
